@@ -3,6 +3,7 @@ package main
 import (
 	"fmt"
 	"os"
+	"runtime"
 	"time"
 
 	"verif/lib/vatomic"
@@ -16,6 +17,7 @@ import (
 //	rw-recursive  a reader re-enters RLock while a writer is announced: deadlock (writer preference)
 //	racy/locked   (race build) unsynchronised counter is reported, locked counter is not
 func selftest() {
+	runtime.GOMAXPROCS(1) // as in the workers
 	fail := false
 	expect := func(name string, ok bool, detail string) {
 		fmt.Printf("selftest %-14s %v  %s\n", name, map[bool]string{true: "ok", false: "FAILED"}[ok], detail)
